@@ -113,6 +113,10 @@ def ro_statics_pass(chk, scripts):
         chk.dist('ro_statics_runs', 'ok' if rc == 0 else 'rc%d' % rc)
         if 'X PROTECTED' not in out:
             raise vlib.BuildError('c18_rostatics did not protect the library data: %s' % (out + err)[-300:])
+        if rc == 124:
+            # a spinning child is an outcome of its own (not a build error): reported by the caller with the script as replay
+            chk.ro_hangs = getattr(chk, 'ro_hangs', []) + [sc]
+            continue
         if rc not in (0, 65) and 'X STATIC-WRITE' not in out:
             # a crash of the single-threaded run says nothing about statics; it must not hide what the thread sets found
             # on a broken tree: judged by the caller (build error only if nothing else was found)
@@ -493,6 +497,10 @@ def run(chk):
                                                  'a library function stored to the process-wide static object %s (in %s)' % (
                                                      obj, detail['written_by'])))
     chk.cov['ro_statics_scripts'] = len(ro_scripts)
+    for sc in getattr(chk, 'ro_hangs', [])[:1]:
+        found.setdefault('hang:read-only-statics', (['threads 1 reps 1 mode seq alloc default'] + ['0 ' + l for l in sc] + ['end'],
+                                                    dict(how='single-threaded run by harness/c18_rostatics.c, limit 300 s'),
+                                                    'a single-threaded API history did not terminate within 300 s'))
     if getattr(chk, 'ro_crashes', None):
         if not found:
             raise vlib.BuildError(chk.ro_crashes[0])
